@@ -250,6 +250,12 @@ func fsSiteFor(keyFields []string, casketfileText func(T string) (string, error)
 // roundTrip writes one raw request and renders the response canonically.
 // kind is a short classification for the coverage histogram.
 func (s *fsSite) roundTrip(method, target, extraHeaders string) (out, kind string) {
+	return s.roundTripOpt(method, target, extraHeaders, true)
+}
+
+// headEnc=false: a 200 to HEAD is rendered without its Content-Encoding (a site with the gzip
+// directive announces gzip for any body it would compress).
+func (s *fsSite) roundTripOpt(method, target, extraHeaders string, headEnc bool) (out, kind string) {
 	c, err := net.DialTimeout("tcp", s.addr, 5*time.Second)
 	if err != nil {
 		return "io-error:dial", "io-error"
@@ -263,7 +269,7 @@ func (s *fsSite) roundTrip(method, target, extraHeaders string) (out, kind strin
 	}
 	defer resp.Body.Close()
 	body, rerr := io.ReadAll(resp.Body)
-	return fsRender(method, resp, body, rerr)
+	return fsRender(method, resp, body, rerr, headEnc)
 }
 
 func fsTokens(b []byte) []string {
@@ -279,7 +285,7 @@ func fsTokens(b []byte) []string {
 	return out
 }
 
-func fsRender(method string, resp *http.Response, body []byte, rerr error) (string, string) {
+func fsRender(method string, resp *http.Response, body []byte, rerr error, headEnc bool) (string, string) {
 	st := resp.StatusCode
 	ce := resp.Header.Get("Content-Encoding")
 	if ce == "" {
@@ -291,6 +297,9 @@ func fsRender(method string, resp *http.Response, body []byte, rerr error) (stri
 		if zr, err := gzip.NewReader(bytes.NewReader(body)); err == nil {
 			if d, err := io.ReadAll(zr); err == nil {
 				decoded = d
+				if ce == "gzip" {
+					ce = "-" // compressed on the fly by the gzip directive, not a precompressed sibling
+				}
 			}
 		}
 	}
@@ -299,6 +308,9 @@ func fsRender(method string, resp *http.Response, body []byte, rerr error) (stri
 	}
 	if strings.EqualFold(method, "HEAD") {
 		if st == 200 {
+			if !headEnc {
+				ce = "-"
+			}
 			return "H200\t" + ce, "H200"
 		}
 		return fmt.Sprintf("S%d", st), fmt.Sprintf("S%d", st)
